@@ -323,6 +323,7 @@ func runC03(c *Ctx) {
 	// a response is typed by "the request previously sent": the request must be registered before its bytes can reach the
 	// peer and never again afterwards (else an answered request is matched twice), and a sent Set Chunk Size must be
 	// applied after the announcing message went out (else the peer cannot decode the packets that follow)
+	checkDecodedMembersCounted(c, "C03.order")
 	checkRegistrationOrder(c, "C03.txn")
 	checkChunkSizeAppliedAs(c, "C03.ctl")
 
